@@ -22,6 +22,12 @@ def rotation_heavy(rng, n, comps):
         # keep the documented precondition: drop switches to sets that are not in the header yet
         h["ops"] = [o for o in ops if o["op"] != "editbp"
                     and not (o["op"] == "setbp" and o["i"] < 200 and o["i"] >= len(h["preamble"]["bps"]))]
+        # rotation whose argument is a file name although the exporter writes to a descriptor (and vice versa): the
+        # writer silently ignores it while the exporter believes the output was switched -> known finding C13-kind-mismatch
+        if h["out"] == "fd" and h["comp"] == "none" and i % 4 == 1:
+            rots = [o for o in h["ops"] if o["op"] == "rot"]
+            if rots:
+                rng.choice(rots)["mismatch"] = True
         hs.append(h)
     return hs
 
